@@ -27,6 +27,7 @@ def run(chk: Check) -> None:
     while_stepper(chk)
     block_stepper(chk)
     ownership(chk)
+    child_value_handed_up(chk, 'DOM-value-propagation')
 
 
 def do_step(chk: Check) -> None:
@@ -183,11 +184,48 @@ def _step_unpack(f):
     return norm(u[0].targets[0].elts[0]), norm(u[0].targets[0].elts[1]), u[0].value
 
 
-def _ret_tuple(ff, node):
+def _ret_tuple(ff, node, path=None):
+    """[finished-expression, value-expression] of a ``return a, b``; with ``path`` the value is what that name holds on
+    that very path (a reassignment such as ``result = None`` before the return shows)."""
     v = node.ast.value
+    if path is not None:
+        from ..decisions import value_on_path
+        idx = [i for i, m in enumerate(path) if m is node]
+        if idx:
+            v = value_on_path(path, idx[-1], v)
     if isinstance(v, ast.Tuple) and len(v.elts) == 2:
         return [ff.canon.key(e) for e in v.elts]
     return None
+
+
+def child_value_handed_up(chk: Check, rule: str) -> None:
+    """Block / if / while steppers hand the value of the child step they ran up UNCHANGED on every path (a ToContext or
+    a stop value produced deep inside nested blocks must reach WorkChain._do_step)."""
+    from ..decisions import paths_under
+    prog = chk.prog
+    for name in ('_BlockStepper', '_IfStepper', '_WhileStepper'):
+        f = prog.func(f'workchains.{name}.step')
+        ff = chk.ctx.facts.analyse(f)
+        up = _step_unpack(f)
+        if up is None:
+            chk.ob(rule, f, False, f'{name}.step does not step its child at one site', kind='child-step-site')
+            continue
+        fin, res, call = up
+        step_nodes = ff.cfg.nodes_containing(call)
+        bad = []
+        n = 0
+        for path in paths_under(ff, {}, frozen=[fin, res]):
+            if path[-1] is not ff.cfg.exit or not any(m in step_nodes for m in path):
+                continue
+            rets = [m for m in path if m.kind == 'return']
+            if not rets:
+                continue
+            n += 1
+            rt = _ret_tuple(ff, rets[-1], path)
+            if rt is None or rt[1] != res:
+                bad.append(rt)
+        chk.ob(rule, f, not bad and n >= 1, f'{name}.step: on each of the {n} paths that ran a child step, the value handed up is that step\'s value, unchanged' +
+               (f' (got {bad[:2]})' if bad else ''), kind='child-value-unchanged')
 
 
 def while_stepper(chk: Check) -> None:
@@ -227,7 +265,7 @@ def while_stepper(chk: Check) -> None:
             saw_create = any(m in create_nodes for m in path)
             saw_drop = any(m in drop_nodes for m in path)
             rets = [m for m in path if m.kind == 'return']
-            rt = _ret_tuple(ff, rets[-1]) if rets else None
+            rt = _ret_tuple(ff, rets[-1], path) if rets else None
             no_iter = val[CHILD]
             exp_pred = no_iter
             exp_body = (not no_iter) or val[PRED]
@@ -275,7 +313,7 @@ def block_stepper(chk: Check) -> None:
                 if adv != (1 if val[fin] else 0):
                     dev.append((dict(val), adv))
                 rets = [m for m in path if m.kind == 'return']
-                rt = _ret_tuple(ff, rets[-1]) if rets else None
+                rt = _ret_tuple(ff, rets[-1], path) if rets else None
                 if rt != ['self.finished()', res]:
                     dev.append((dict(val), rt))
         chk.ob('DOM-block-sequence', f, not dev and n_paths >= 2, 'the block advances exactly once when the current instruction is finished, not at all otherwise, and reports '
